@@ -77,7 +77,7 @@ impl E2ECampaign {
     let cfg = FaultCfg { p_eintr: swarm(&mut rng, &[3, 10]), p_spurious_timeout: swarm(&mut rng, &[5, 20]), p_spurious_ready: swarm(&mut rng, &[5, 20]), p_latency: swarm(&mut rng, &[10, 40]), p_oversleep: swarm(&mut rng, &[20]), max_interrupts: rng.below(3) as u32 };
     let mut cfg = cfg;
     match rng.below(24) { 0 => cfg.p_spurious_timeout = 90, 1 => cfg.p_spurious_ready = 90, 2 => { cfg.p_eintr = 85; cfg.max_interrupts = 6 + rng.below(5) as u32; } _ => {} }
-    let b = CaseB { layout: a.sut_layout().unwrap_or_else(|_| a.layout.clone()), layout_name: a.layout_name.clone(), kbd, tab: vec![], has_tablet: false, cfg, tape: vec![], fail_at: None, extra_ticks: rng.below(3) as u32, kbd_end_at: None, tab_end_at: None, hybrid: true, write_fault: None, read_fault: None, sysread_fault: None, syswrite_fault: None, poll_fault: None, syspoll: rng.chance(1, 2) };
+    let b = CaseB { layout: a.sut_layout().unwrap_or_else(|_| a.layout.clone()), layout_name: a.layout_name.clone(), kbd, tab: vec![], has_tablet: false, cfg, tape: vec![], fail_at: None, extra_ticks: rng.below(3) as u32, kbd_end_at: None, tab_end_at: None, hybrid: true, write_fault: None, read_fault: None, sysread_fault: None, syswrite_fault: None, syswrite_short: None, poll_fault: None, syspoll: rng.chance(1, 2) };
     let mut b = b;
     // one run in eight: a write(2) on the virtual keyboard fails at some point, for good or for a moment
     if rng.chance(1, 8) { b.syswrite_fault = Some((rng.below(40), [0u32, 0, 1, 1, 2, 3][rng.below(6)], rng.below(4) as u8)); }
@@ -114,7 +114,7 @@ impl E2ECampaign {
     }
     let swarm = |rng: &mut Rng, choices: &[u32]| if rng.chance(1, 2) { 0 } else { rng.pick(choices) };
     let cfg = FaultCfg { p_eintr: swarm(rng, &[3, 10]), p_spurious_timeout: swarm(rng, &[5, 20]), p_spurious_ready: swarm(rng, &[5, 20]), p_latency: swarm(rng, &[10, 40]), p_oversleep: swarm(rng, &[20]), max_interrupts: rng.below(3) as u32 };
-    let b = CaseB { layout: a.sut_layout().unwrap_or_else(|_| a.layout.clone()), layout_name: a.layout_name.clone(), kbd, tab, has_tablet: true, cfg, tape: vec![], fail_at: None, extra_ticks: rng.below(3) as u32, kbd_end_at: None, tab_end_at: None, hybrid: true, write_fault: None, read_fault: None, sysread_fault: None, syswrite_fault: None, poll_fault: None, syspoll: rng.chance(1, 2) };
+    let b = CaseB { layout: a.sut_layout().unwrap_or_else(|_| a.layout.clone()), layout_name: a.layout_name.clone(), kbd, tab, has_tablet: true, cfg, tape: vec![], fail_at: None, extra_ticks: rng.below(3) as u32, kbd_end_at: None, tab_end_at: None, hybrid: true, write_fault: None, read_fault: None, sysread_fault: None, syswrite_fault: None, syswrite_short: None, poll_fault: None, syspoll: rng.chance(1, 2) };
     let mut b = b;
     // one run in eight: a write(2) on the virtual keyboard fails at some point, for good or for a moment
     if rng.chance(1, 8) { b.syswrite_fault = Some((rng.below(40), [0u32, 0, 1, 1, 2, 3][rng.below(6)], rng.below(4) as u8)); }
